@@ -116,6 +116,14 @@ func newEngine(size int, tok string) *engine {
 	default:
 		base = evalWinner
 	}
+	if kv["ev"] == "nil" {
+		// the engine's own evaluator (MinimaxConfig.Evaluate left nil): no leaf counter, hence no cancellation by leaf
+		e.ai = ai.NewMinimax(cfg)
+		if tbl > 0 && e.ai.VerifTableLen() != int(tbl) {
+			panic("verifh: size of ai.tableEntry changed")
+		}
+		return e
+	}
 	cfg.Evaluate = func(c *bitboard.Constants, p *tak.Position) int64 {
 		v := base(c, p)
 		e.evals++
